@@ -7,6 +7,7 @@ import (
 	"context"
 	"fmt"
 	"sync"
+	"sync/atomic"
 	"time"
 
 	"github.com/hashicorp/nodeenrollment"
@@ -153,4 +154,72 @@ func runRootsMigrations(c *engine.Ctx) {
 		cases = append(cases, rootsMigrateCase{Kind: "migrate", Backend: be, Reinit: i%2 == 1, Seq: i})
 	}
 	engine.ForEach(len(cases), engine.Workers(), func(i int) { runRootsMigrate(c, cases[i]) })
+	ns := c.Pick(4, 16)
+	engine.ForEach(ns, engine.Workers(), func(i int) { runRootsSlowLoad(c, i) })
+	c.R.Require("slowload:current_valid_on_return", int64(ns*3/4))
+}
+
+// rootsSlowStore delays every load of the roots record while armed (a storage or key service that takes its time)
+type rootsSlowStore struct {
+	nodeenrollment.Storage
+	armed atomic.Bool
+	delay time.Duration
+}
+
+func (v *rootsSlowStore) Load(ctx context.Context, m nodeenrollment.MessageWithId) error {
+	if _, ok := m.(*types.RootCertificates); ok && v.armed.Load() {
+		time.Sleep(v.delay)
+	}
+	return v.Storage.Load(ctx, m)
+}
+
+// runRootsSlowLoad: the stored current root runs out, and the stored next root becomes valid, while the rotation
+// call is waiting for its storage. Whatever instant the call judges by, "current is valid at that moment" is
+// about the moment it returns: the unchanged tree reads the clock after the load, sees next valid and current
+// expired, and promotes. The instants lie 2 - 3 s after the record is written and the load takes 5 s, so
+// the expected outcome does not depend on how long anything else takes.
+func runRootsSlowLoad(c *engine.Ctx, seq int) {
+	r := c.R
+	slow := &rootsSlowStore{delay: 5 * time.Second}
+	s, err := world.NewServer(world.ServerCfg{Backend: []string{world.Inmem, world.File}[seq%2], Wrap: func(in nodeenrollment.Storage) nodeenrollment.Storage {
+		slow.Storage = in
+		return slow
+	}})
+	if err != nil {
+		r.Broken("roots slow load: server world: " + err.Error())
+		return
+	}
+	defer s.Close()
+	mc := rootsMigrateCase{Kind: "slow-load", Backend: []string{world.Inmem, world.File}[seq%2], Seq: seq}
+	ck, nk := world.NewKeys(), world.NewKeys()
+	t := time.Now()
+	if _, err := storeCrafted(s, ck, nk, t.Add(-time.Hour), t.Add(3*time.Second), t.Add(2*time.Second), t.Add(time.Hour)); err != nil {
+		r.Broken("roots slow load: crafted roots: " + err.Error())
+		return
+	}
+	slow.armed.Store(true)
+	var ret *types.RootCertificates
+	var rerr error
+	p, stack := engine.Guard(func() {
+		ret, rerr = rotation.RotateRootCertificates(s.Ctx, s.Store, nodeenrollment.WithCertificateLifetime(time.Hour))
+	})
+	back := time.Now()
+	slow.armed.Store(false)
+	r.Eval(engine.J(mc), true)
+	r.Count("slowload:histories", 1)
+	if p != nil {
+		r.Violation("panic:"+engine.LibraryFrame(stack), fmt.Sprintf("RotateRootCertificates panicked: %v", p), mc)
+		return
+	}
+	if rerr != nil || ret == nil || ret.Current == nil || ret.Next == nil {
+		r.Violation("rotation-failed:slow-storage", fmt.Sprintf("rotation over a slow storage failed on a loadable state: %v", rerr), mc)
+		return
+	}
+	nb, na := ret.Current.NotBefore.AsTime(), ret.Current.NotAfter.AsTime()
+	if back.Before(nb) || back.After(na) {
+		kept := bytes.Equal(ret.Current.PublicKeyPkix, ck.Pkix)
+		r.Violation("current-not-valid-after-call:slow-storage", fmt.Sprintf("the stored current root ran out and the stored next root became valid while the call waited %v for its storage; the call returned successfully at %s with a current root valid %s .. %s (the stored current root kept: %v)", slow.delay, back.UTC().Format(time.RFC3339Nano), nb.Format(time.RFC3339Nano), na.Format(time.RFC3339Nano), kept), mc)
+		return
+	}
+	r.Count("slowload:current_valid_on_return", 1)
 }
